@@ -273,3 +273,46 @@ package band
 //@ func lemmaC10_isolation_AU915
 //@   props C10
 //@   inlines (*band.band).AddChannel (*band.band).DisableUplinkChannelIndex (*band.band).EnableUplinkChannelIndex (*band.band).GetUplinkChannel
+
+// US915 / AU915 planner, second strategy ("all 125 kHz channels off" + one payload per 16-channel block + the
+// 500 kHz channels 64..71 in the mask of the first payload). Total for every device list; and, as recurrences
+// over the network's enabled channels e (ascending): the first payload keeps ChMaskCntl 7 and has the bit of
+// every e >= 64 seen so far; a step over e < 64 that opens a block appends exactly one payload whose control is
+// e / 16 and whose mask has the bit of EVERY enabled channel of that block; other steps append nothing.
+// (That the shorter of the two plans is returned, and the composition with the apply function, are not claimed.)
+//@ func (*us902Band).GetLinkADRReqPayloadsForEnabledUplinkChannelIndices
+//@   props C14
+//@   modifies nothing
+//@   loop 0: invariant idx: rangeindex >= 0 - 1 && rangeindex < len(enabledChannels)
+//@   loop 0: invariant out-shape: len(out) >= 1 && fresh(out) && out[0].Redundancy.ChMaskCntl == 7
+//@   loop 0: invariant enabled-valid: forall k int :: 0 <= k && k < len(enabledChannels) ==> 0 <= enabledChannels[k] && enabledChannels[k] < len(b.band.uplinkChannels)
+//@   loop 0: invariant hi-bits: forall k int :: 0 <= k && k <= rangeindex && enabledChannels[k] >= 64 ==> out[0].ChMask[enabledChannels[k] % 16]
+//@   loop 0: step hi: enabledChannels[rangeindex] >= 64 ==> len(out) == prev(len(out)) && out[0].ChMask[enabledChannels[rangeindex] % 16]
+//@   loop 0: step block: len(out) == prev(len(out)) + 1 ==> enabledChannels[rangeindex] < 64 && out[len(out)-1].Redundancy.ChMaskCntl == uint8(enabledChannels[rangeindex] / 16)
+//@   loop 0: step block-mask: len(out) == prev(len(out)) + 1 ==> forall k int :: 0 <= k && k < len(enabledChannels) && enabledChannels[k] >= (enabledChannels[rangeindex] / 16)*16 && enabledChannels[k] < (enabledChannels[rangeindex] / 16 + 1)*16 ==> out[len(out)-1].ChMask[enabledChannels[k] % 16]
+//@   loop 0: step grow: len(out) == prev(len(out)) || len(out) == prev(len(out)) + 1
+//@   loop 0: modifies out[0:len(out)]
+//@   loop 0: decreases len(enabledChannels) - rangeindex
+//@   loop 1: invariant idx: rangeindex >= 0 - 1 && rangeindex < len(enabledChannels)
+//@   loop 1: invariant enabled-valid: forall k int :: 0 <= k && k < len(enabledChannels) ==> 0 <= enabledChannels[k] && enabledChannels[k] < len(b.band.uplinkChannels)
+//@   loop 1: invariant mask-complete: forall k int :: 0 <= k && k <= rangeindex && enabledChannels[k] >= chMaskCntl*16 && enabledChannels[k] < (chMaskCntl+1)*16 ==> pl.ChMask[enabledChannels[k] % 16]
+//@   loop 1: modifies pl.ChMask
+//@   loop 1: decreases len(enabledChannels) - rangeindex
+//@ func (*au915Band).GetLinkADRReqPayloadsForEnabledUplinkChannelIndices
+//@   props C14
+//@   modifies nothing
+//@   loop 0: invariant idx: rangeindex >= 0 - 1 && rangeindex < len(enabledChannels)
+//@   loop 0: invariant out-shape: len(out) >= 1 && fresh(out) && out[0].Redundancy.ChMaskCntl == 7
+//@   loop 0: invariant enabled-valid: forall k int :: 0 <= k && k < len(enabledChannels) ==> 0 <= enabledChannels[k] && enabledChannels[k] < len(b.band.uplinkChannels)
+//@   loop 0: invariant hi-bits: forall k int :: 0 <= k && k <= rangeindex && enabledChannels[k] >= 64 ==> out[0].ChMask[enabledChannels[k] % 16]
+//@   loop 0: step hi: enabledChannels[rangeindex] >= 64 ==> len(out) == prev(len(out)) && out[0].ChMask[enabledChannels[rangeindex] % 16]
+//@   loop 0: step block: len(out) == prev(len(out)) + 1 ==> enabledChannels[rangeindex] < 64 && out[len(out)-1].Redundancy.ChMaskCntl == uint8(enabledChannels[rangeindex] / 16)
+//@   loop 0: step block-mask: len(out) == prev(len(out)) + 1 ==> forall k int :: 0 <= k && k < len(enabledChannels) && enabledChannels[k] >= (enabledChannels[rangeindex] / 16)*16 && enabledChannels[k] < (enabledChannels[rangeindex] / 16 + 1)*16 ==> out[len(out)-1].ChMask[enabledChannels[k] % 16]
+//@   loop 0: step grow: len(out) == prev(len(out)) || len(out) == prev(len(out)) + 1
+//@   loop 0: modifies out[0:len(out)]
+//@   loop 0: decreases len(enabledChannels) - rangeindex
+//@   loop 1: invariant idx: rangeindex >= 0 - 1 && rangeindex < len(enabledChannels)
+//@   loop 1: invariant enabled-valid: forall k int :: 0 <= k && k < len(enabledChannels) ==> 0 <= enabledChannels[k] && enabledChannels[k] < len(b.band.uplinkChannels)
+//@   loop 1: invariant mask-complete: forall k int :: 0 <= k && k <= rangeindex && enabledChannels[k] >= chMaskCntl*16 && enabledChannels[k] < (chMaskCntl+1)*16 ==> pl.ChMask[enabledChannels[k] % 16]
+//@   loop 1: modifies pl.ChMask
+//@   loop 1: decreases len(enabledChannels) - rangeindex
